@@ -75,6 +75,18 @@ Fixpoint dot_suffixes (s : str) : list str :=
       else if c =? c_dot then r :: dot_suffixes r
       else dot_suffixes r
   end.
+(* nextDot itself, as the code has it: the index of the first '.' that separates two
+   labels, -1 when there is none ([i] = index of the first byte of [s]); tied to the
+   translated function by gen_nextDot and to dot_suffixes by walk_follows_next_dot *)
+Fixpoint next_dot_from (s : str) (i : Z) : Z :=
+  match s with
+  | [] => (-1)%Z
+  | c :: r =>
+      if c =? c_bs then match r with [] => (-1)%Z | _ :: r' => next_dot_from r' (i + 2)%Z end
+      else if c =? c_dot then i
+      else next_dot_from r (i + 1)%Z
+  end.
+Definition next_dot (s : str) : Z := next_dot_from s 0%Z.
 Definition nonempty (s : str) : bool := negb (is_nil s).
 Definition cands (s : str) : list str := filter nonempty (dot_suffixes s).
 
